@@ -11,6 +11,8 @@
 //!       out: OK <filesz()> <blockoffset_last()> <count_blocks(filesz, blocksz)> <mtime()> <fs mtime> <count_blocks_processed> <results as above>
 //!            mtime = <secs>.<nanos> since the epoch, "-<secs>.<nanos>" before it, or MPANIC
 //!            NEWERR <message> | PANIC
+//!   openh   <hex path> <fta> <blocksz> <i,i,...>   like blocks (drop on), blocks as <i>:F:<len>:<digest> (Corr/C05c.digest)
+//!       out: OK <filesz()> <i>:F:<len>:<digest>|<i>:D:0:0|<i>:E:0:0 ...
 //!   tarls   <hex path> [0]  the tar crate's own entry list (entries_with_seek; with 0: entries()), the oracle of the model:
 //!       out: OK <k>:<type byte>:<entry.size()>:<header().size()|E>:<header().mtime()|E>:<hex path lossy|E>:<raw_file_position>:<hex data>:<hex path_bytes()> ... | <k>:ERR
 //!   pptar   <hex path>      process_path_tar(path, true, Normal)
@@ -95,6 +97,33 @@ fn open(f: &[&str]) -> String {
             ResultS3::Found(bp) => out.push_str(&format!(" {}:F:{}", i, hex(&bp))),
             ResultS3::Done => out.push_str(&format!(" {}:D:", i)),
             ResultS3::Err(_e) => out.push_str(&format!(" {}:E:", i)),
+        }
+    }
+    out
+}
+
+fn openh(f: &[&str]) -> String {
+    let path = String::from_utf8_lossy(&unhex(f[1])).to_string();
+    let ft = FileType::Text { archival_type: fta(f[2]), encoding_type: FileTypeTextEncoding::Utf8Ascii };
+    let bs: BlockSz = f[3].parse().unwrap();
+    let idx: Vec<BlockOffset> = f[4].split(',').filter(|s| !s.is_empty()).map(|s| s.parse().unwrap()).collect();
+    let mut br = match BlockReader::new(path, ft, bs) {
+        Ok(b) => b,
+        Err(e) => return format!("NEWERR {}", e.to_string().replace('\n', " ").replace('\t', " ")),
+    };
+    let mut out = format!("OK {}", br.filesz());
+    for i in idx {
+        match br.read_block(i) {
+            ResultS3::Found(bp) => {
+                let (mut a, mut c): (u128, u128) = (0, 0);
+                for b in bp.iter() {
+                    a += (*b as u128) + 1;
+                    c += a;
+                }
+                out.push_str(&format!(" {}:F:{}:{}", i, bp.len(), c * 4294967296 + a))
+            }
+            ResultS3::Done => out.push_str(&format!(" {}:D:0:0", i)),
+            ResultS3::Err(_e) => out.push_str(&format!(" {}:E:0:0", i)),
         }
     }
     out
@@ -201,6 +230,7 @@ fn main() {
             "blocks" => blocks(&f),
             "lz4enc" => lz4enc(&f),
             "open" => open(&f),
+            "openh" => openh(&f),
             "tarls" => tarls(&f),
             "pptar" => pptar(&f),
             "ntf" => ntf(&f),
